@@ -103,3 +103,27 @@ fn c11_k_jd_next() {
   assert!(r.subtract(x) == n as f64, "subtract is the exact difference");
   kani::cover!(n == -1, "jd_next reachable");
 }
+
+// ---- C12: any Julian date inside one day -> valid instant within half a second (experiment: thorough tier) ------------
+// The date part depends only on the integer day (contract / K3); this harness fixes the day number symbolically in a
+// slice and lets the FRACTION range over every f64 in [0, 1): the clock part and the rounding carry are then checked for
+// all fractions: fields in range, and |seconds-of-day + 86400*(day carried) - fraction*86400| <= 0.5 (+ f64 resolution).
+fn c12_frac_body(nlo: isize, nhi: isize) {
+  let n: i64 = kani::any();
+  kani::assume(n >= nlo as i64 && n <= nhi as i64);
+  let f: f64 = kani::any();
+  kani::assume(f >= 0.0 && f < 1.0);
+  let jd = (n as f64) - 0.5 + f;
+  kani::assume(jd < 5373484.5 - 0.00001);                           // the last second of 9999-12-31 rounds into year 10000
+  let r = JulianDay::from_julian_day(jd).get_solar_time();
+  assert!(r.get_hour() < 24 && r.get_minute() < 60 && r.get_second() < 60, "clock fields in range");
+  let (y, m, d) = (r.get_year() as i64, r.get_month() as i64, r.get_day() as i64);
+  assert!(spec::valid_date(y, m, d), "a valid date");
+  let dn = spec::jdn(y, m, d);
+  assert!(dn == n || dn == n + 1, "the same day or (after rounding up) the next one");
+  let got = (dn - n) as f64 * 86400.0 + (r.get_hour() * 3600 + r.get_minute() * 60 + r.get_second()) as f64;
+  let want = (jd - ((n as f64) - 0.5)) * 86400.0;
+  assert!(got - want <= 0.5001 && want - got <= 0.5001, "within half a second of the Julian date");
+  kani::cover!(dn == n + 1, "fraction reachable (carry into the next day)");
+}
+//@SLICES prefix=c12_k_jd_fraction call=c12_frac_body lo=1721424 hi=5373484 n=128
